@@ -25,7 +25,7 @@ LISTDIR = os.path.join(os.path.dirname(os.path.abspath(__file__)), 'c2clite.d')
 
 
 KEEP_EXTERN = set()      # (file, C name): see @extern below
-LATE = set()             # Coq names: see @late below
+LATE = {}                # Coq name -> rank: see @late below
 
 
 def read_lists():
@@ -48,14 +48,17 @@ def read_lists():
             if line[0] == '@late':
                 # the functions listed BEHIND this line in the same list file are translated after every other function (not together
                 # with the earlier functions of their C file), so that the global blocks G_* and extern indices X_* they bring along
-                # are appended at the end and the indices of the other groups do not move
+                # are appended at the end and the indices of the other groups do not move.  "@late N" (N = 1, 2, ...; plain @late is
+                # rank 0): the late groups are translated in rank order, so a list file added after 99zz_glob / 99zzz_dir takes a
+                # higher rank than every existing one and what IT brings along lands behind theirs, whatever its file name is
                 late_file = fn
+                late_rank = int(line[1]) if len(line) > 1 else 0
                 continue
             if len(line) not in (2, 3):
                 die('%s: bad line %r' % (fn, line))
             out.append((line[0], line[1], line[2] if len(line) == 3 else line[1]))
             if late_file == fn:
-                LATE.add(out[-1][2])
+                LATE[out[-1][2]] = late_rank
     names = [c for _, _, c in out]
     if len(set(names)) != len(names):
         die('duplicate Coq names in the whitelist')
@@ -914,9 +917,10 @@ class Translator:
         for f, fn, coq in FUNCS:
             if coq not in LATE:
                 by_file.setdefault(f, []).append((fn, coq))
-        for f, fn, coq in FUNCS:
-            if coq in LATE:
-                by_file.setdefault(f + '\0late', []).append((fn, coq))
+        for rank in sorted(set(LATE.values())):
+            for f, fn, coq in FUNCS:
+                if LATE.get(coq) == rank:
+                    by_file.setdefault(f + '\0late' + (str(rank) if rank else ''), []).append((fn, coq))
         bodies = {}
         for f, fns in by_file.items():
             f = f.split('\0')[0]
